@@ -14,13 +14,14 @@ import (
 
 // C10 - the message-size limit bounds buffering on every path.
 
-const ruleC10 = "rapid draws a per-service limit L in {256 B .. 64 KiB} and one request or response message whose size is placed relative to L in a chosen representation (wire, decompressed, re-encoded, re-compressed): L-64, L-1, L, L+1, 2L, 10L, and highly compressible payloads inflating 20..1000 x; declared or undeclared lengths; every client form x target configuration, i.e. every adapter path. Oracles: (A1) the largest pooled buffer seen during the request (instrumented pool, tag verif) is <= 8L + 64 KiB and the bytes allocated during ServeHTTP (runtime.MemStats.TotalAlloc delta, single in-flight request) are <= 24L + 24 MiB; (A2) if every representation of every message is <= L - margin the RPC is not rejected with resource_exhausted; (A3) a message delivered in converted form had wire, decompressed and observed re-encoded size <= L; (A4) a size rejection carries resource_exhausted and the oversized message is not delivered; (A6) a request message whose plain form exceeds L and which the transcoder itself had to inflate never reaches the backend as a cleanly ending payload, not even truncated. Non-trivial = some representation within [L/2, 4L] or a compression ratio >= 20; distinct by hash(L, direction, sizes, client and backend triple)."
+const ruleC10 = "rapid draws a per-service limit L in {256 B .. 64 KiB} and one request or response message whose size is placed relative to L in a chosen representation (wire, decompressed, re-encoded, re-compressed): L-64, L-1, L, L+1, 2L, 10L, and highly compressible payloads inflating 20..1000 x; declared or undeclared lengths; every client form x target configuration, i.e. every adapter path. Oracles: (A1) the largest pooled buffer seen during the request (instrumented pool, tag verif) is <= 8L + 64 KiB and the bytes allocated during ServeHTTP (runtime.MemStats.TotalAlloc delta, single in-flight request) are <= 24L + 24 MiB; (A2) if every representation of every message is <= L - margin the RPC is not rejected with resource_exhausted; (A3) a message delivered in converted form had wire, decompressed and observed re-encoded size <= L; (A4) a size rejection carries resource_exhausted and the oversized message is not delivered; (A7) metadata of a compressed end-of-stream / trailer frame that inflates beyond L is not delivered when the transcoder has to read the frame; (A6) a request message whose plain form exceeds L and which the transcoder itself had to inflate never reaches the backend as a cleanly ending payload, not even truncated. Non-trivial = some representation within [L/2, 4L] or a compression ratio >= 20; distinct by hash(L, direction, sizes, client and backend triple)."
 
 type sizeCase struct {
 	Sc        Scenario `json:"scenario"`
 	Direction string   `json:"direction"` // request | response
 	Payload   int      `json:"payload"`   // size of the blob inside the message
 	Compressible bool  `json:"compressible"`
+	EndFrame  bool     `json:"end_frame,omitempty"` // the big item is the metadata of a compressed end-of-stream / trailer frame
 }
 
 func init() {
@@ -151,6 +152,29 @@ func TestC10(t *testing.T) {
 				c.Sc.Backend.WriteSplits = []int{5}
 			}
 		}
+		if c.Direction == "response" && rapid.IntRange(0, 5).Draw(t, "end_frame_class") == 0 {
+			// the end of the stream as the big item: metadata of highly compressible values in a
+			// compressed gRPC-Web trailer frame / Connect end-of-stream frame (wire size small,
+			// inflated size c.Payload)
+			c.Sc.Backend.Msgs, c.Sc.Backend.MsgRaw = nil, nil
+			if !mi.SStream {
+				c.Sc.Backend.Msgs, c.Sc.Backend.MsgRaw = [][]byte{nil}, []bool{false}
+			}
+			c.Sc.Backend.Trailers = []KV{{"X-Big", strings.Repeat("a", c.Payload)}}
+			c.Sc.Backend.Compress, c.Sc.Backend.CompressEnd = true, true
+			c.Sc.Backend.TrailerStyle = "prefixed"
+			if !contains(c.Sc.Client.Accept, CompGzip) {
+				c.Sc.Client.Accept = []string{CompGzip}
+			}
+			c.EndFrame = true
+			// only backends whose end travels in band (a message-like frame the limit applies to); the
+			// HTTP trailers of a gRPC backend are bounded by the HTTP server, not by this limit
+			c.Sc.Config.Protocols = []string{ProtoGRPCWeb}
+			if (mi.CStream || mi.SStream) && rapid.Bool().Draw(t, "end_frame_connect") {
+				c.Sc.Config.Protocols = []string{ProtoConnect}
+			}
+			c.Sc.Config.OtherOpts = nil
+		}
 		judge(t, "C10", c, checkC10(c))
 	})
 }
@@ -258,6 +282,16 @@ func checkC10(c *sizeCase) *CheckResult {
 			}
 		}
 	}
+	// A7: metadata of a compressed end-of-stream / trailer frame whose inflated size is over the limit
+	// is not delivered when the transcoder has to read that frame (the client speaks another protocol)
+	if c.EndFrame && view != nil && c.Payload > L && (view.Protocol == ProtoGRPCWeb || (view.Protocol == ProtoConnect && view.Sub == "stream")) && pickResponseCompression(sc, view) != "" {
+		res.class("end_frame target=%s outcome=%s", view.Protocol, cv.outcome())
+		if formProtocol(sc.Client.Form) != view.Protocol || sc.Client.Form == FormConnectUnary || sc.Client.Form == FormConnectGet {
+			if got := strings.Join(cv.Trailers.Values("X-Big"), ""); len(got) > L {
+				res.violate("oversized_end_delivered", sig+":a7", "limit %d: the backend's compressed end frame inflates to more than %d bytes, yet %d bytes of its metadata reached the %s client (outcome %s)", L, c.Payload, len(got), sc.Client.Form, cv.outcome())
+			}
+		}
+	}
 	// A3: converted + delivered => every representation fits
 	if cv.OK && view != nil {
 		if c.Direction == "request" && len(view.Msgs) > 0 {
@@ -307,6 +341,9 @@ func checkC10(c *sizeCase) *CheckResult {
 		margin := 16
 		fits := true
 		sizes := []int{reqWire, reqPlain}
+		if c.EndFrame {
+			sizes = append(sizes, c.Payload+64) // the end frame is a message-sized item, too
+		}
 		if view != nil {
 			sizes = append(sizes, maxLen(view.Payloads), maxInts(view.WireSizes))
 		}
